@@ -3,7 +3,7 @@
    the little-endian / text / zero representation of its atom, and bytes 0, 1, 2 of the frame are the size,
    the packet type and the request id.  Axiom-free. *)
 Require Import Coq.Strings.String.
-Require Import Base.Bytes Wire.Layout Wire.Customs Wire.CustomProofs Gen.Packets Net.Frame Wire.Packet.
+Require Import Base.Bytes Wire.Layout Wire.LayoutProofs Wire.Customs Wire.CustomProofs Gen.Packets Net.Frame Wire.Packet.
 Require Import Lia.
 Local Open Scope N_scope.
 
@@ -25,7 +25,7 @@ Proof.
   - destruct (n <? 2); [|discriminate]. intros [= <-]. reflexivity.
   - intros [= <-]. reflexivity.
   - destruct cap as [c|]; [destruct (c <? cnt)|]; try discriminate; intros [= <-]; apply le_enc_len.
-  - intros [= <-]. unfold write_fixed. rewrite app_length, repeat_length, firstn_length. lia.
+  - intros [= <-]. apply write_text_len.
   - destruct (_ <? _); [|discriminate]. intros [= <-]. apply le_enc_len.
 Qed.
 
@@ -60,7 +60,7 @@ Theorem enc_atom_repr cnt a v bi : enc_atom cenc cnt a v = Ok bi ->
   | ABool, VN n => bi = [n] /\ n < 2
   | AChar8, VN n => bi = [n mod 256]
   | ACount w _, _ => bi = le_enc w (cnt mod pow256 w)
-  | AText k, VB bs => bi = firstn k bs ++ repeat 0 (k - length (firstn k bs))
+  | AText k z, VB bs => bi = write_text k z bs /\ length bi = k
   | ADur w scale, VN ms => bi = le_enc w (ms / scale) /\ ms / scale < pow256 w
   | _, _ => True
   end.
@@ -70,7 +70,7 @@ Proof.
     | |- (if ?c then _ else _) = _ -> _ => let E := fresh "E" in destruct c eqn:E; try discriminate
     | |- match ?c with Some _ => _ | None => _ end = _ -> _ => destruct c
     end; intros [= <-]; repeat split; auto;
-    try (apply N.ltb_lt; assumption); try (apply N.ltb_lt; apply Bool.negb_false_iff; assumption).
+    try (apply N.ltb_lt; assumption); try (apply N.ltb_lt; apply Bool.negb_false_iff; assumption); try apply write_text_len.
   match goal with H : existsb _ _ = true |- _ => apply existsb_exists in H as [x [Hx Hq]]; apply N.eqb_eq in Hq; subst; exact Hx end.
 Qed.
 
